@@ -25,7 +25,9 @@ import CpModel.Gen.C15Tables
     `no-cache`, `age = int(response.time - create_time)`, `age > max_age` ⇒ miss, hit ⇒ `Age`.
     `max_age` is capped by `delay` (the repaired code, finding F16a).
   * `tee_output`: request `no-store`, response `no-store` / `Pragma: no-cache`, empty body ⇒
-    `delete`, else `put`.
+    `delete`, else `put` — and nothing at all unless the tee generator ran to its end
+    (`Plan.completes`: handler exception, body iterator raising at chunk k, abandoned stream,
+    streamed HEAD leave the cache, placeholder included, as it is).
   * `_wrapper`: hit ⇒ handler skipped; miss ⇒ tee attached iff `request.cacheable`.
   * the clock: `Nat` ticks, `tps = 4` ticks per second (so `int()` truncation is exercised);
     a request happens at one instant (`response.time`).
@@ -124,7 +126,19 @@ structure Plan where
   size : Nat                     -- len(body)
   noStore : Bool                 -- response `Cache-Control: no-store`
   pragmaNoCache : Bool           -- response `Pragma: no-cache`
+  stream : Bool := false         -- `response.stream`: the body is iterated by the WSGI consumer, not by finalize
+  bodyOk : Bool := true          -- the handler returned and its body iterator runs to its end without raising
+  drained : Bool := true         -- the client reads a streamed body to its end (no early `close()`)
   deriving Repr, DecidableEq
+
+def sHead : Str := ['H', 'E', 'A', 'D']
+
+/-- Did the `tee` generator run to its end (the only place where `put` / `delete` happen)?
+    Buffered: `finalize` (or the encode tool, before the tee exists) drains the body, so it does iff the
+    handler and its iterator do not raise.  Streamed: only when the client drains it, and never for HEAD
+    (`Request.run` replaces the body by `[]`). -/
+def Plan.completes (p : Plan) (r : Req) : Bool :=
+  p.bodyOk && (!p.stream || (p.drained && decide (r.method ≠ sHead)))
 
 /-- `request.headers.get(h, '')` -/
 def hget (r : Req) (h : Str) : Str := (aget r.hdrs h).getD []
@@ -249,7 +263,8 @@ structure World where
 /-- `tee_output` + the drained `tee` generator, for a request that reached the handler with
     `request.cacheable = True`; `gen` is the generation the handler just produced. -/
 def tee (cfg : Cfg) (c : Cache) (r : Req) (p : Plan) (gen now : Nat) : Cache :=
-  if sNoStore ∈ r.cc then c
+  if p.completes r = false then c
+  else if sNoStore ∈ r.cc then c
   else if p.pragmaNoCache ∨ p.noStore then c
   else if p.size = 0 then c.delete r.uri
   else c.put cfg r p gen now
